@@ -17,6 +17,8 @@ CHECKS = {
  "C09": "Coq theorems (props/C09.v): for every DateTime/Time/Date, offset and candidate value, each of the 10 setters replaces exactly one local field (local day via the Date-level setter, local clock via the clock setter; everything else, read in local time, and the offset are stated unchanged) or passes an OutOfRange error through; the 9 clears leave the stated local fields and zero/minimise the rest. Tied to /repo by a differential run that re-reads all fields in local time.",
  "C10": "Coq theorems (props/C10.v): set_offset keeps days/nanoseconds (instant) and succeeds exactly when the local reading is representable; all getters read the instant shifted by the offset; as_offset moves the instant by minus the offset and makes the local reading equal the former UTC reading; Time analogues mod 24 h; Offset::from_seconds/from_hms accept exactly +-23:59:59 and resolve/resolve_hms return what was given. Tied to /repo by a differential run.",
  "C15": "Coq theorems (props/C15.v): from_ymd/from_ymdhms/from_hms/from_seconds/from_nanos/Offset constructors return Ok exactly on valid arguments (full u32/i32 domains) with the denoted value, otherwise an OutOfRange error whose range excludes the rejected value and contains every accepted value of that parameter; set_* never panic. Tied to /repo by a differential run comparing (name, min, max, value) of every error with the model.",
+ "C16": "Coq theorems (props/C16.v): for every text, CronSchedule::parse succeeds exactly when the documented grammar recogniser (CronSpec.cron_spec) accepts it, and then each of the five value sets contains, over the field's range, precisely the values the items denote (*/n from the field minimum, names case-insensitively, weekday 7 = Sunday also inside ranges); otherwise it fails with InvalidFormat. Tied to /repo by a differential run over grammar-generated expressions and their single-edit mutations, sets read from Debug.",
+ "C17": "Model of CronSchedule::next written with the same DateTime operations as the code (proved in C04/C05/C09) and compared with /repo under a pinned clock (hook H1) on histories of calls; every observed result is additionally checked inside Coq to be the least matching minute after max(clock, previous result) by an independent day-level oracle built from the C16 specification. Theorems in props/C17.v (see file header for what is proved).",
  "C08": "Coq theorems (props/C08.v): every Time reachable through any list of public operations stays inside [0, 24 h) (induction over the operation list), add_/sub_/operators compute (t +/- amount) mod 24 h keeping the offset, constructors accept exactly in-day values, equal fields imply equal values. Tied to /repo by a differential run.",
 }
 def chk(pid, text):
@@ -27,14 +29,14 @@ def chk(pid, text):
             "level_note": NOTE, "technique": TECH}
 NA = {
 }
-PENDING = ["C11","C12","C13","C14","C16","C17","C18","C19","C20"]
+PENDING = ["C11","C12","C13","C14","C18","C19","C20"]
 m = {
  "version": 1,
  "setup_cmd": "./setup.sh",
  "hooks": {"guard": "astrolabe_verif",
-           "enable": "RUSTFLAGS=\"--cfg astrolabe_verif\" (set by ./check and ./setup.sh for the harness build)",
+           "enable": "cargo feature astrolabe_verif of the astrolabe crate (harness/Cargo.toml depends on /repo with features = [\"astrolabe_verif\"])",
            "baseline_off_cmd": "cd /repo && cargo test --workspace --no-fail-fast --offline",
-           "source_commits": [], "add_only": True},
+           "source_commits": ["ceac7d9", "4937476"], "add_only": True},
  "engines": [{"name": "coq-proof+correspondence", "path": "check", "serves_properties": sorted(CHECKS),
               "kind_free_text": "Coq 8.16.1 theorems about a hand-written Gallina model (coq/theories), tied to /repo by a differential run: a Rust harness (dev and release profiles) observes the public API; the model and the specification oracle are evaluated on the same inputs inside Coq by vm_compute"}],
  "checks": [chk(p, CHECKS[p]) for p in sorted(CHECKS)],
